@@ -212,94 +212,30 @@ Proof.
   rewrite IH, flat_group_add. split; [intros [H|[H|H]]|intros [[H|H]|H]]; auto.
 Qed.
 
-Lemma group_cids qs (P : cid -> Prop) : (forall q, In q qs -> P (snd q)) ->
-  forall gt, In gt (group qs) -> P (fst gt).
-Proof.
-  intros HP. unfold group.
-  assert (G : forall acc, (forall gt, In gt acc -> P (fst gt)) ->
-            forall gt, In gt (fold_left (fun acc q => group_add (fst q) (snd q) acc) qs acc) -> P (fst gt)).
-  { induction qs as [|[t g] r IH]; intros acc Ha gt; simpl; [apply Ha|].
-    apply IH; [intros q Hq; apply HP; right; exact Hq|].
-    clear IH gt. induction acc as [|[g' ts] a IHa]; simpl.
-    - intros gt [<-|[]]. simpl. apply (HP (t, g)). left; reflexivity.
-    - destruct (N.eqb_spec g g') as [->|Hg]; intros gt [<-|H]; simpl.
-      + apply (Ha (g', ts)). left; reflexivity.
-      + apply Ha. right; exact H.
-      + apply (Ha (g', ts)). left; reflexivity.
-      + apply IHa; [intros x Hx; apply Ha; right; exact Hx|exact H]. }
-  apply G. intros gt [].
-Qed.
-
-Lemma fold_groups alias acc : (forall gt, In gt acc -> resolve alias (GIri (fst gt)) = fst gt) ->
-  forall e, fold_left (apply_upd alias) (map (fun gt => UInsert (GIri (fst gt)) (snd gt)) acc) e
-            = fold_left add_quad (flat acc) e.
-Proof.
-  induction acc as [|[g ts] r IH]; intros Hr e; simpl; [reflexivity|].
-  unfold flat; simpl. rewrite fold_left_app. fold (flat r).
-  rewrite <- IH by (intros gt Hgt; apply Hr; right; exact Hgt).
-  f_equal. specialize (Hr (g, ts) (or_introl eq_refl)). simpl in Hr.
-  rewrite insert_as_add_quads. simpl. rewrite Hr. reflexivity.
-Qed.
-
-(* ------------------------------------------------------------------ *)
-(* the operations in the region without findings                        *)
-
-Definition good (alias : bool) (o : op) : bool :=
-  negb (negb alias && uses_default_iri o) && negb (falsy_contexts o)
-  && negb (is_bad_op o) && negb (resub_hit o).
-
-Lemma kf_good c : kf c = 0 -> forallb (good (c_alias c)) (c_ops c) = true.
-Proof.
-  unfold kf. intros H.
-  destruct (negb (c_alias c) && existsb uses_default_iri (c_ops c)) eqn:E1; [discriminate|].
-  destruct (existsb falsy_contexts (c_ops c)) eqn:E2; [discriminate|].
-  destruct (existsb is_bad_op (c_ops c)) eqn:E3; [discriminate|].
-  destruct (existsb resub_hit (c_ops c)) eqn:E4; [discriminate|].
-  apply forallb_forall. intros o Ho. unfold good.
-  assert (A2 : falsy_contexts o = false).
-  { destruct (falsy_contexts o) eqn:E; auto.
-    assert (existsb falsy_contexts (c_ops c) = true) by (apply existsb_exists; eauto). congruence. }
-  assert (A3 : is_bad_op o = false).
-  { destruct (is_bad_op o) eqn:E; auto.
-    assert (existsb is_bad_op (c_ops c) = true) by (apply existsb_exists; eauto). congruence. }
-  assert (A4 : resub_hit o = false).
-  { destruct (resub_hit o) eqn:E; auto.
-    assert (existsb resub_hit (c_ops c) = true) by (apply existsb_exists; eauto). congruence. }
-  rewrite A2, A3, A4. simpl. rewrite !andb_true_r.
-  destruct (c_alias c); simpl in *; auto.
-  destruct (uses_default_iri o) eqn:E; auto.
-  assert (existsb uses_default_iri (c_ops c) = true) by (apply existsb_exists; eauto). congruence.
-Qed.
-
 Lemma resolve_ctx_ref alias c : resolve alias (ctx_ref c) = cid_of c.
 Proof.
   destruct c as [g|]; simpl; auto. destruct (N.eqb_spec g 0) as [->|H]; simpl; auto.
   destruct (N.eqb_spec g 0); congruence.
 Qed.
 
-Lemma resolve_iri alias g : (alias = true \/ g <> 0) -> resolve alias (GIri g) = g.
+Lemma fold_groups alias acc : forall e,
+  fold_left (apply_upd alias) (map (fun gt => UInsert (ctx_ref (Some (fst gt))) (snd gt)) acc) e
+  = fold_left add_quad (flat acc) e.
 Proof.
-  simpl. destruct (N.eqb_spec g 0) as [->|H]; auto. intros [->|H]; auto. congruence.
+  induction acc as [|[g ts] r IH]; intros e; [reflexivity|].
+  cbn [map fold_left]. unfold flat; cbn [map concat]. rewrite fold_left_app. fold (flat r).
+  rewrite <- IH. f_equal. cbn [fst snd apply_upd].
+  rewrite insert_as_add_quads, resolve_ctx_ref. reflexivity.
 Qed.
 
-Lemma resub_pos_clean x : in_resub x = false -> resub_pos x = Some x.
-Proof.
-  destruct x as [t|]; [|reflexivity]. unfold in_resub, resub_pos, resub_term.
-  destruct (assoc t resub_table); [discriminate|reflexivity].
-Qed.
+(* ------------------------------------------------------------------ *)
+(* every write of the client denotes, at the endpoint, the write it is  *)
+(* on a local dataset                                                   *)
 
-Lemma resub_pat_clean s p o :
-  in_resub s || in_resub p || in_resub o = false -> resub_pat (s, p, o) = Some (s, p, o).
-Proof.
-  rewrite !orb_false_iff. intros [[H1 H2] H3]. unfold resub_pat.
-  rewrite (resub_pos_clean H1), (resub_pos_clean H2), (resub_pos_clean H3). reflexivity.
-Qed.
-
-(* every write of the client denotes, at the endpoint, the write it would be on a local dataset *)
-Lemma compile_write alias o w : good alias o = true -> classify o = KWrite w ->
+Lemma compile_write alias o w : classify o = KWrite w ->
   exists us ws, compile o = Some us /\ D alias us ws /\ wsim ws [w].
 Proof.
-  unfold good. rewrite !andb_true_iff, !negb_true_iff. intros [[[G1 G2] G3] G4] Hc.
+  intros Hc.
   destruct o as [t c|qs|p c|g|g|u c| | | | | | | | | ]; simpl in Hc; try discriminate.
   - (* add *)
     injection Hc as <-. exists [UInsert (ctx_ref c) [t]], [WAdd [(t, cid_of c)]].
@@ -307,20 +243,12 @@ Proof.
     constructor; [|constructor]. unfold den. rewrite resolve_ctx_ref. reflexivity.
   - (* addN *)
     injection Hc as <-.
-    assert (Hres : forall gt, In gt (group qs) -> resolve alias (GIri (fst gt)) = fst gt).
-    { apply (@group_cids qs (fun g => resolve alias (GIri g) = g)).
-      intros q Hq. apply resolve_iri. destruct alias; [left; reflexivity|right].
-      simpl in G1. intros E.
-      assert (existsb (fun q => N.eqb (snd q) 0) qs = true).
-      { apply existsb_exists. exists q. split; auto. apply N.eqb_eq; exact E. }
-      congruence. }
-    exists (map (fun gt => UInsert (GIri (fst gt)) (snd gt)) (group qs)),
+    exists (map (fun gt => UInsert (ctx_ref (Some (fst gt))) (snd gt)) (group qs)),
            (map (fun gt => WAdd (map (fun t => (t, fst gt)) (snd gt))) (group qs)).
     split; [reflexivity|]. split.
-    + unfold D. revert Hres. generalize (group qs). intros l Hl.
-      induction l as [|gt r IH]; simpl; constructor.
-      * unfold den. rewrite (Hl gt (or_introl eq_refl)). reflexivity.
-      * apply IH. intros x Hx. apply Hl. right; exact Hx.
+    + unfold D. generalize (group qs). intros l.
+      induction l as [|gt r IH]; cbn [map]; constructor; [|exact IH].
+      unfold den. rewrite resolve_ctx_ref. reflexivity.
     + intros e1 e2 He. simpl.
       assert (F : forall l e, fold_left s_apply (map (fun gt => WAdd (map (fun t => (t, fst gt)) (snd gt))) l) e
                               = fold_left add_quad (flat l) e).
@@ -342,10 +270,7 @@ Proof.
     simpl. destruct (N.eqb_spec g 0) as [->|H]; simpl; [reflexivity|].
     destruct (N.eqb_spec g 0); [congruence|reflexivity].
   - (* update *)
-    assert (Hr : resolve alias (qg_ref c) = cid_of c).
-    { destruct c as [g|]; [|reflexivity]. simpl qg_ref. simpl cid_of. apply resolve_iri.
-      destruct alias; [left; reflexivity|right]. simpl in G1.
-      intros ->. simpl in G1. destruct u; discriminate. }
+    assert (Hr : resolve alias (qg_ref c) = cid_of c) by apply resolve_ctx_ref.
     destruct u as [t|t|p|p]; injection Hc as <-.
     + exists [UInsert (qg_ref c) [t]], [WAdd [(t, cid_of c)]].
       split; [reflexivity|]. split; [|apply wsim_refl]. constructor; [|constructor].
@@ -356,10 +281,8 @@ Proof.
     + exists [UDelWhere (qg_ref c) p], [WRemove p (cid_of c)].
       split; [reflexivity|]. split; [|apply wsim_refl]. constructor; [|constructor].
       unfold den. rewrite Hr. reflexivity.
-    + destruct p as [[s pr] o]. simpl in G4.
-      exists [UDelWhere (qg_ref c) (s, pr, o)], [WRemove (s, pr, o) (cid_of c)].
-      split; [unfold compile, compile_uop; rewrite (resub_pat_clean G4); reflexivity|].
-      split; [|apply wsim_refl]. constructor; [|constructor].
+    + exists [UDelWhere (qg_ref c) p], [WRemove p (cid_of c)].
+      split; [reflexivity|]. split; [|apply wsim_refl]. constructor; [|constructor].
       unfold den. rewrite Hr. reflexivity.
 Qed.
 
@@ -369,17 +292,16 @@ Qed.
 Lemma q_triples_NoDup p g s : NoDup s -> NoDup (q_triples p g s).
 Proof.
   unfold q_triples. intros H.
-  assert (Hf : NoDup (filter (qsel p (Some g)) s)) by (apply filter_NoDup; exact H).
-  assert (Hg : forall q, In q (filter (qsel p (Some g)) s) -> snd q = g).
-  { intros q Hq. apply filter_In in Hq. destruct Hq as [_ Hq]. unfold qsel in Hq.
-    apply andb_true_iff in Hq. destruct Hq as [_ Hq]. apply N.eqb_eq in Hq. auto. }
-  revert Hf Hg. generalize (filter (qsel p (Some g)) s). intros l.
-  induction l as [|[t c] r IH]; simpl; intros Hn Hg; [constructor|].
-  inversion Hn as [|? ? Hx Hr]; subst. constructor.
-  - intros Hin. apply in_map_iff in Hin. destruct Hin as [[t' c'] [E Hin]]. simpl in E. subst t'.
-    apply Hx. pose proof (Hg (t, c) (or_introl eq_refl)) as E1. pose proof (Hg (t, c') (or_intror Hin)) as E2.
-    simpl in E1, E2. subst c c'. exact Hin.
-  - apply IH; auto.
+  assert (G : forall l : list quad, NoDup l -> (forall q, In q l -> snd q = g) -> NoDup (map fst l)).
+  { induction l as [|[t c] r IH]; simpl; intros Hn Hg; [constructor|].
+    inversion Hn as [|? ? Hx Hr]; subst. constructor.
+    - intros Hin. apply in_map_iff in Hin. destruct Hin as [[t' c'] [E Hin]]. simpl in E. subst t'.
+      apply Hx. pose proof (Hg (t, c) (or_introl eq_refl)) as E1. pose proof (Hg (t, c') (or_intror Hin)) as E2.
+      simpl in E1, E2. subst c c'. exact Hin.
+    - apply IH; auto. }
+  apply G; [apply filter_NoDup; exact H|].
+  intros q Hq. apply filter_In in Hq. destruct Hq as [_ Hq]. unfold qsel in Hq.
+  apply andb_true_iff in Hq. destruct Hq as [_ Hq]. apply N.eqb_eq in Hq. auto.
 Qed.
 
 Lemma ctx_rows_NoDup t s : NoDup s -> NoDup (ctx_rows (pat_of t) s).
@@ -403,39 +325,33 @@ Proof.
   intros H. apply (enum_ofb_spec _ Hs). split; [exact H|apply seteq_refl].
 Qed.
 
-Lemma truthy_pat_clean s p o : falsy s || falsy p || falsy o = false -> truthy_pat (s, p, o) = pat_of (s, p, o).
-Proof.
-  rewrite !orb_false_iff. intros [[H1 H2] H3]. simpl. rewrite H1, H2, H3. reflexivity.
-Qed.
-
-Lemma read_ok_model alias o e : good alias o = true -> is_read o = true -> ep_nodup e ->
+Lemma read_ok_model alias o e : is_read o = true -> ep_nodup e ->
   read_ok o e (read_ans alias o e) = true.
 Proof.
-  unfold good. rewrite !andb_true_iff, !negb_true_iff. intros [[[G1 G2] G3] G4] Hr [Hq Hn].
+  intros Hr [Hq Hn].
   destruct o as [| | | | | | | | | | |p c|c|t|k p c]; try discriminate.
   - cbn [read_ok read_ans]. rewrite resolve_ctx_ref.
     apply (enum_ofb_self triple_eqb_spec), q_triples_NoDup, Hq.
   - cbn [read_ok read_ans]. rewrite resolve_ctx_ref. apply N.eqb_refl.
-  - destruct t as [[[s p] o]|]; cbn [read_ok read_ans].
-    + cbn [falsy_contexts] in G2. rewrite (truthy_pat_clean G2).
-      apply (enum_ofb_self N.eqb_spec). apply (ctx_rows_NoDup (s, p, o)), Hq.
+  - destruct t as [t|]; cbn [read_ok read_ans].
+    + apply (enum_ofb_self N.eqb_spec). apply (ctx_rows_NoDup t), Hq.
     + apply (enum_ofb_self N.eqb_spec), Hn.
-  - assert (Hres : resolve alias (qg_ref c) = cid_of c).
-    { destruct c as [g|]; [|reflexivity]. simpl qg_ref. simpl cid_of. apply resolve_iri.
-      destruct alias; [left; reflexivity|right]. simpl in G1. intros ->. discriminate. }
-    cbn [read_ok read_ans]. rewrite Hres.
+  - cbn [read_ok read_ans]. unfold qg_ref. rewrite resolve_ctx_ref.
     apply (enum_ofb_self triple_eqb_spec), q_triples_NoDup, Hq.
 Qed.
 
 (* ------------------------------------------------------------------ *)
 (* the simulation                                                       *)
 
+Definition notbad (u : upd) : bool := negb (is_bad u).
+
 Record R (alias : bool) (m : mst) (s : sst) : Prop := {
   R_ep : m_ep m = s_prev s;
   R_auto : m_auto m = s_auto s;
   R_dirty : m_dirty m = s_dirty s;
   R_nd : ep_nodup (m_ep m);
-  R_ws : exists ws, D alias (m_edits m) ws /\ wsim ws (s_pend s) }.
+  R_poison : existsb is_bad (m_edits m) = s_poison s;
+  R_ws : exists ws, D alias (filter notbad (m_edits m)) ws /\ wsim ws (s_pend s) }.
 
 Lemma ep_ok_intro now expected : ep_nodup now -> ep_equiv now expected -> ep_ok now expected = true.
 Proof.
@@ -443,6 +359,12 @@ Proof.
   rewrite (proj2 (nodupb_spec _ quad_eqb_spec _) H1), (proj2 (qseteqb_spec _ _) H3),
           (proj2 (nodupb_spec _ N.eqb_spec _) H2), (proj2 (seteqb_spec _ N.eqb_spec _ _) H4).
   reflexivity.
+Qed.
+
+Lemma filter_notbad_id us : existsb is_bad us = false -> filter notbad us = us.
+Proof.
+  induction us as [|u r IH]; simpl; auto. intros H. apply orb_false_iff in H. destruct H as [H1 H2].
+  unfold notbad at 1. rewrite H1. simpl. rewrite IH; auto.
 Qed.
 
 Lemma m_commit_D alias m ws : D alias (m_edits m) ws ->
@@ -454,75 +376,117 @@ Proof.
   - rewrite (send_D e H). reflexivity.
 Qed.
 
-Lemma flush_sim alias m s ws : R alias m s -> D alias (m_edits m) ws -> wsim ws (s_pend s) ->
-  ep_nodup (fold_left s_apply ws (m_ep m)) /\ ep_equiv (fold_left s_apply ws (m_ep m)) (flushed s).
+Lemma m_commit_bad alias m : existsb is_bad (m_edits m) = true ->
+  m_commit alias m = (set_ep m (m_ep m) [], false).
 Proof.
-  intros HR HD Hs. split.
-  - apply fold_s_apply_nodup, (R_nd HR).
-  - unfold flushed. apply Hs. rewrite (R_ep HR). apply ep_equiv_refl.
+  intros H. unfold m_commit. destruct m as [e l a d]; simpl in *.
+  destruct l as [|u r]; [discriminate|]. unfold send. rewrite H. reflexivity.
 Qed.
 
-Lemma R_after_flush alias m s e : R alias m s -> ep_nodup e ->
-  R alias (set_ep m e []) (s_next s e []).
+(* the queue, extended by the edits [us] of the call being made, goes to the
+   endpoint: the model does what [flush_step] prescribes *)
+Lemma flush_sim alias m s us ws' extra (bad : bool) (ok : ep -> ans -> bool) (f : ep -> ans) :
+  R alias m s ->
+  existsb is_bad us = bad -> D alias (filter notbad us) ws' -> wsim ws' extra ->
+  (forall e, ep_nodup e -> ok e (f e) = true) ->
+  let r := m_commit alias (set_ep m (m_ep m) (m_edits m ++ us)) in
+  exists s', flush_step s extra bad (m_ep (fst r)) (if snd r then f (m_ep (fst r)) else ARaised) (ok (m_ep (fst r))) = Some s'
+             /\ R alias (fst r) s'.
 Proof.
-  intros HR Hn. constructor; simpl; auto; try apply HR.
-  exists []. split; [constructor|apply wsim_refl].
+  intros HR Hb HD' Hs' Hok. destruct (R_ws HR) as [ws [HD Hs]].
+  assert (Hcur : ep_ok (m_ep m) (s_prev s) = true).
+  { apply ep_ok_intro; [apply HR|rewrite (R_ep HR); apply ep_equiv_refl]. }
+  unfold flush_step. rewrite <- (R_poison HR), <- Hb.
+  destruct (existsb is_bad (m_edits m) || existsb is_bad us) eqn:Ep.
+  - assert (Hbad : existsb is_bad (m_edits (set_ep m (m_ep m) (m_edits m ++ us))) = true)
+      by (simpl; rewrite existsb_app; exact Ep).
+    cbv zeta. rewrite (m_commit_bad alias Hbad). simpl. rewrite Hcur. simpl.
+    eexists; split; [reflexivity|].
+    constructor; simpl; auto; try apply HR. exists []. split; [constructor|apply wsim_refl].
+  - apply orb_false_iff in Ep. destruct Ep as [E1 E2].
+    rewrite (filter_notbad_id E1) in HD. rewrite (filter_notbad_id E2) in HD'.
+    assert (HDa : D alias (m_edits (set_ep m (m_ep m) (m_edits m ++ us))) (ws ++ ws'))
+      by (simpl; apply D_app; assumption).
+    cbv zeta. rewrite (m_commit_D HDa). simpl.
+    assert (Hnd : ep_nodup (fold_left s_apply (ws ++ ws') (m_ep m))) by (apply fold_s_apply_nodup, HR).
+    assert (Heq : ep_equiv (fold_left s_apply (ws ++ ws') (m_ep m))
+                           (fold_left s_apply (s_pend s ++ extra) (s_prev s))).
+    { apply (wsim_app Hs Hs'). rewrite (R_ep HR). apply ep_equiv_refl. }
+    rewrite (ep_ok_intro Hnd Heq), (Hok _ Hnd). simpl.
+    eexists; split; [reflexivity|].
+    constructor; simpl; auto; try apply HR. exists []. split; [constructor|apply wsim_refl].
 Qed.
+
+Lemma set_ep_same m : set_ep m (m_ep m) (m_edits m ++ []) = m.
+Proof. destruct m; unfold set_ep; simpl. rewrite app_nil_r. reflexivity. Qed.
 
 Lemma m_step_compile alias m o us : compile o = Some us -> m_step alias m o = m_write alias m us.
 Proof.
   intros H. destruct o; try discriminate H; unfold m_step; rewrite H; reflexivity.
 Qed.
 
-Lemma step_sim alias m s o : R alias m s -> good alias o = true ->
+(* a write-like call: its edits, and what they mean *)
+Lemma write_sim alias m s us ws' extra (bad : bool) :
+  R alias m s ->
+  existsb is_bad us = bad -> D alias (filter notbad us) ws' -> wsim ws' extra ->
+  let r := m_write alias m us in
+  exists s', write_step s extra bad (m_ep (fst r)) (snd r) = Some s' /\ R alias (fst r) s'.
+Proof.
+  intros HR Hb HD' Hs'. destruct (R_ws HR) as [ws [HD Hs]].
+  unfold write_step, m_write. rewrite <- (R_auto HR). destruct (m_auto m) eqn:Ha.
+  - destruct (flush_sim (ok := fun _ => is_none) (f := fun _ => ANone) HR Hb HD' Hs' (fun _ _ => eq_refl))
+      as [s' [H1 H2]].
+    cbv zeta in *.
+    destruct (m_commit alias (set_ep m (m_ep m) (m_edits m ++ us))) as [m2 okb] eqn:Ec.
+    simpl in *. exists s'. split; [|exact H2]. destruct okb; exact H1.
+  - cbv zeta. simpl.
+    assert (Hcur : ep_ok (m_ep m) (s_prev s) = true).
+    { apply ep_ok_intro; [apply HR|rewrite (R_ep HR); apply ep_equiv_refl]. }
+    rewrite Hcur. simpl. eexists; split; [reflexivity|].
+    constructor; simpl; auto; try apply HR.
+    + rewrite existsb_app, (R_poison HR), Hb. reflexivity.
+    + exists (ws ++ ws'). split; [|apply wsim_app; assumption].
+      unfold notbad. rewrite filter_app. apply D_app; assumption.
+Qed.
+
+Lemma step_sim alias m s o : R alias m s ->
   exists s', spec_step s o (m_ep (fst (m_step alias m o))) (snd (m_step alias m o)) = Some s'
              /\ R alias (fst (m_step alias m o)) s'.
 Proof.
-  intros HR Hg. destruct (R_ws HR) as [ws [HD Hs]].
+  intros HR. destruct (R_ws HR) as [ws [HD Hs]].
   assert (Hcur : ep_ok (m_ep m) (s_prev s) = true).
   { apply ep_ok_intro; [apply HR|rewrite (R_ep HR); apply ep_equiv_refl]. }
   destruct (classify o) as [w| | | |b|b| | ] eqn:Hc.
   - (* a write *)
-    destruct (compile_write Hg Hc) as [us [ws' [Hcomp [HD' Hs']]]].
-    assert (Hstep : m_step alias m o = m_write alias m us) by (apply m_step_compile; exact Hcomp).
-    rewrite Hstep. unfold spec_step. rewrite Hc. unfold m_write. rewrite <- (R_auto HR).
-    destruct (m_auto m) eqn:Ha.
-    + assert (HDa : D alias (m_edits (set_ep m (m_ep m) (m_edits m ++ us))) (ws ++ ws'))
-        by (simpl; apply D_app; assumption).
-      rewrite (m_commit_D HDa). simpl.
-      assert (Hw : wsim (ws ++ ws') (s_pend s ++ [w])) by (apply wsim_app; assumption).
-      assert (Hnd : ep_nodup (fold_left s_apply (ws ++ ws') (m_ep m))) by (apply fold_s_apply_nodup, HR).
-      assert (Heq : ep_equiv (fold_left s_apply (ws ++ ws') (m_ep m)) (s_apply (flushed s) w)).
-      { unfold flushed.
-        replace (s_apply (fold_left s_apply (s_pend s) (s_prev s)) w)
-          with (fold_left s_apply (s_pend s ++ [w]) (s_prev s)) by (rewrite fold_left_app; reflexivity).
-        apply Hw. rewrite (R_ep HR). apply ep_equiv_refl. }
-      rewrite (ep_ok_intro Hnd Heq). simpl. eexists; split; [reflexivity|].
-      constructor; simpl; auto; try apply HR. exists []. split; [constructor|apply wsim_refl].
-    + simpl. rewrite Hcur. simpl. eexists; split; [reflexivity|].
-      constructor; simpl; auto; try apply HR.
-      exists (ws ++ ws'). split; [apply D_app; assumption|apply wsim_app; assumption].
-  - (* rejected update: excluded *)
-    exfalso. destruct o as [t c|qs|p c|g|g|u c| | | |b0|b0|p c|c|t|k p c]; simpl in Hc; try discriminate.
-    + destruct (N.eqb g 0); discriminate.
-    + destruct u; discriminate.
-    + unfold good in Hg. simpl in Hg. rewrite !andb_true_iff in Hg. destruct Hg as [[_ Hg] _]. discriminate.
+    destruct (compile_write alias Hc) as [us [ws' [Hcomp [HD' Hs']]]].
+    rewrite (m_step_compile alias m Hcomp). unfold spec_step. rewrite Hc.
+    pose proof (D_not_bad HD') as Hnb.
+    apply (write_sim (ws' := ws') HR Hnb); [rewrite (filter_notbad_id Hnb); exact HD'|exact Hs'].
+  - (* an update the endpoint will reject *)
+    assert (o = OBadUpdate) as ->.
+    { destruct o as [t c|qs|p c|g|g|u c| | | |b0|b0|p c|c|t|k p c]; simpl in Hc; try discriminate; auto.
+      - destruct (N.eqb g 0); discriminate.
+      - destruct u; discriminate. }
+    rewrite (m_step_compile alias m (o := OBadUpdate) (us := [UBad]) eq_refl). unfold spec_step. simpl classify.
+    apply (write_sim (us := [UBad]) (ws' := []) HR eq_refl); [constructor|apply wsim_refl].
   - (* commit *)
     assert (o = OCommit) as ->.
     { destruct o as [t c|qs|p c|g|g|u c| | | |b0|b0|p c|c|t|k p c]; simpl in Hc; try discriminate; auto.
       - destruct (N.eqb g 0); discriminate.
       - destruct u; discriminate. }
-    simpl. rewrite (m_commit_D HD). simpl.
-    destruct (flush_sim HR HD Hs) as [Hnd Heq].
-    unfold spec_step; simpl. rewrite (ep_ok_intro Hnd Heq). simpl.
-    eexists; split; [reflexivity|]. apply R_after_flush; auto.
+    unfold spec_step. simpl classify.
+    destruct (flush_sim (us := []) (ws' := []) (extra := []) (ok := fun _ => is_none) (f := fun _ => ANone) HR eq_refl
+                (Forall2_nil _) (wsim_refl []) (fun _ _ => eq_refl)) as [s' [H1 H2]].
+    cbv zeta in *. rewrite set_ep_same in H1, H2. simpl m_step.
+    destruct (m_commit alias m) as [m2 okb]. simpl in *. exists s'. split; [|exact H2]. destruct okb; exact H1.
   - (* rollback *)
     assert (o = ORollback) as ->.
     { destruct o as [t c|qs|p c|g|g|u c| | | |b0|b0|p c|c|t|k p c]; simpl in Hc; try discriminate; auto.
       - destruct (N.eqb g 0); discriminate.
       - destruct u; discriminate. }
     simpl. unfold spec_step; simpl. rewrite Hcur. simpl.
-    eexists; split; [reflexivity|]. apply R_after_flush; auto. apply HR.
+    eexists; split; [reflexivity|].
+    constructor; simpl; auto; try apply HR. exists []. split; [constructor|apply wsim_refl].
   - (* set autocommit *)
     assert (o = OSetAuto b) as ->.
     { destruct o as [t c|qs|p c|g|g|u c| | | |b0|b0|p c|c|t|k p c]; simpl in Hc; try discriminate; try (injection Hc as ->; reflexivity).
@@ -548,11 +512,12 @@ Proof.
     rewrite Hstep. unfold spec_step. rewrite Hc. unfold m_read.
     rewrite <- (R_auto HR), <- (R_dirty HR).
     destruct (negb (m_auto m) && negb (m_dirty m)) eqn:Hf.
-    + rewrite (m_commit_D HD). simpl.
-      destruct (flush_sim HR HD Hs) as [Hnd Heq].
-      rewrite (ep_ok_intro Hnd Heq), (read_ok_model Hg Hr Hnd). simpl.
-      eexists; split; [reflexivity|]. apply R_after_flush; auto.
-    + simpl. rewrite Hcur, (read_ok_model Hg Hr (R_nd HR)). simpl.
+    + destruct (flush_sim (us := []) (ws' := []) (extra := []) (ok := fun e => read_ok o e) (f := read_ans alias o)
+                  HR eq_refl (Forall2_nil _) (wsim_refl [])) as [s' [H1 H2]].
+      * intros e He. apply read_ok_model; assumption.
+      * cbv zeta in *. rewrite set_ep_same in H1, H2.
+        destruct (m_commit alias m) as [m2 okb]. simpl in *. exists s'. split; [|exact H2]. destruct okb; exact H1.
+    + simpl. rewrite Hcur, (read_ok_model alias Hr (R_nd HR)). simpl.
       eexists; split; [reflexivity|]. constructor; simpl; auto; try apply HR; try (exists ws; auto).
   - (* add_graph of the default graph: nothing is sent *)
     assert (o = OAddGraph 0) as ->.
@@ -563,18 +528,16 @@ Proof.
     eexists; split; [reflexivity|]. constructor; simpl; auto; try apply HR; try (exists ws; auto).
 Qed.
 
-Lemma run_sim alias ops : forall m s, R alias m s -> forallb (good alias) ops = true ->
-  spec_run s ops (m_run alias m ops) = true.
+Lemma run_sim alias ops : forall m s, R alias m s -> spec_run s ops (m_run alias m ops) = true.
 Proof.
-  induction ops as [|o r IH]; intros m s HR Hg; simpl; [reflexivity|].
-  apply andb_true_iff in Hg. destruct Hg as [Hg Hgr].
-  destruct (step_sim HR Hg) as [s' [Hs HR']].
+  induction ops as [|o r IH]; intros m s HR; simpl; [reflexivity|].
+  destruct (step_sim o HR) as [s' [Hs HR']].
   destruct (m_step alias m o) as [m' a] eqn:E. simpl in *. rewrite Hs. apply IH; assumption.
 Qed.
 
-Theorem spec_ok_model : forall c, wf c -> kf c = 0 -> spec_ok c (model_obs c) = true.
+Theorem spec_ok_model : forall c, wf c -> spec_ok c (model_obs c) = true.
 Proof.
-  intros c [H1 H2] Hk. unfold spec_ok, model_obs. apply run_sim; [|apply kf_good, Hk].
+  intros c [H1 H2]. unfold spec_ok, model_obs. apply run_sim.
   constructor; simpl; auto; [split; assumption|].
   exists []. split; [constructor|apply wsim_refl].
 Qed.
@@ -583,11 +546,11 @@ Qed.
 (* Prop-level statements for Props/C20.v                               *)
 
 (* each write has, at the endpoint, the effect it has on a local dataset *)
-Lemma writes_mirror alias o w : good alias o = true -> classify o = KWrite w ->
+Lemma writes_mirror alias o w : classify o = KWrite w ->
   exists us, compile o = Some us /\
     forall e, exists e', send alias e us = Some e' /\ ep_equiv e' (s_apply e w).
 Proof.
-  intros Hg Hc. destruct (compile_write Hg Hc) as [us [ws [Hcomp [HD Hs]]]].
+  intros Hc. destruct (compile_write alias Hc) as [us [ws [Hcomp [HD Hs]]]].
   exists us. split; [exact Hcomp|]. intros e. exists (fold_left s_apply ws e).
   split; [apply send_D; exact HD|]. apply (Hs e e), ep_equiv_refl.
 Qed.
@@ -607,6 +570,14 @@ Lemma triples_mirror alias p c e : NoDup (quads e) ->
     forall t, In t l <-> In (t, cid_of c) (quads e) /\ matches p t = true.
 Proof.
   intros H. exists (q_triples p (cid_of c) (quads e)). cbn [read_ans]. rewrite resolve_ctx_ref.
+  split; [reflexivity|]. split; [apply q_triples_NoDup, H|]. intros t. apply q_triples_In.
+Qed.
+
+Lemma query_mirror alias k p c e : NoDup (quads e) ->
+  exists l, read_ans alias (OQuery k p c) e = ATriples l /\ NoDup l /\
+    forall t, In t l <-> In (t, cid_of c) (quads e) /\ matches p t = true.
+Proof.
+  intros H. exists (q_triples p (cid_of c) (quads e)). cbn [read_ans]. unfold qg_ref. rewrite resolve_ctx_ref.
   split; [reflexivity|]. split; [apply q_triples_NoDup, H|]. intros t. apply q_triples_In.
 Qed.
 
@@ -633,13 +604,12 @@ Proof.
     apply negb_true_iff, N.eqb_neq, H2.
 Qed.
 
-Lemma contexts_mirror alias t e : NoDup (quads e) -> falsy_contexts (OContexts (Some t)) = false ->
+Lemma contexts_mirror alias t e : NoDup (quads e) ->
   exists l, read_ans alias (OContexts (Some t)) e = ANames l /\ NoDup l /\
     forall g, In g l <-> In (t, g) (quads e) /\ g <> 0.
 Proof.
-  intros H Hf. destruct t as [[s p] o]. exists (ctx_rows (pat_of (s, p, o)) (quads e)).
-  cbn [read_ans]. cbn [falsy_contexts] in Hf. rewrite (truthy_pat_clean Hf).
-  split; [reflexivity|]. split; [apply (ctx_rows_NoDup (s, p, o)), H|]. intros g. apply ctx_rows_In.
+  intros H. exists (ctx_rows (pat_of t) (quads e)). cbn [read_ans].
+  split; [reflexivity|]. split; [apply (ctx_rows_NoDup t), H|]. intros g. apply ctx_rows_In.
 Qed.
 
 (* ------------------------------------------------------------------ *)
@@ -647,23 +617,32 @@ Qed.
 
 Record qst := { q_done : list wr;     (* writes the endpoint must have executed, in order *)
                 q_pend : list wr;     (* writes made but not yet due *)
+                q_poison : bool;      (* a statement the endpoint rejects is waiting with them *)
                 q_auto : bool; q_dirty : bool }.
+
+Definition q_set (q : qst) (done pend : list wr) (poison : bool) : qst :=
+  {| q_done := done; q_pend := pend; q_poison := poison; q_auto := q_auto q; q_dirty := q_dirty q |}.
+
+(* the queue (and [extra]) goes to the endpoint: executed in order, or, if a
+   statement is rejected, not at all - either way nothing stays queued *)
+Definition q_flush (q : qst) (extra : list wr) (bad : bool) : qst :=
+  if q_poison q || bad then q_set q (q_done q) [] false
+  else q_set q (q_done q ++ q_pend q ++ extra) [] false.
+
+Definition q_write (q : qst) (extra : list wr) (bad : bool) : qst :=
+  if q_auto q then q_flush q extra bad
+  else q_set q (q_done q) (q_pend q ++ extra) (q_poison q || bad).
 
 Definition q_step (q : qst) (o : op) : qst :=
   match classify o with
-  | KWrite w =>
-      if q_auto q
-      then {| q_done := q_done q ++ q_pend q ++ [w]; q_pend := []; q_auto := q_auto q; q_dirty := q_dirty q |}
-      else {| q_done := q_done q; q_pend := q_pend q ++ [w]; q_auto := q_auto q; q_dirty := q_dirty q |}
-  | KCommit => {| q_done := q_done q ++ q_pend q; q_pend := []; q_auto := q_auto q; q_dirty := q_dirty q |}
-  | KRollback => {| q_done := q_done q; q_pend := []; q_auto := q_auto q; q_dirty := q_dirty q |}
-  | KRead =>
-      if negb (q_auto q) && negb (q_dirty q)
-      then {| q_done := q_done q ++ q_pend q; q_pend := []; q_auto := q_auto q; q_dirty := q_dirty q |}
-      else q
-  | KAuto b => {| q_done := q_done q; q_pend := q_pend q; q_auto := b; q_dirty := q_dirty q |}
-  | KDirty b => {| q_done := q_done q; q_pend := q_pend q; q_auto := q_auto q; q_dirty := b |}
-  | KBad | KNoop => q
+  | KWrite w => q_write q [w] false
+  | KBad => q_write q [] true
+  | KCommit => q_flush q [] false
+  | KRollback => q_set q (q_done q) [] false
+  | KRead => if negb (q_auto q) && negb (q_dirty q) then q_flush q [] false else q
+  | KAuto b => {| q_done := q_done q; q_pend := q_pend q; q_poison := q_poison q; q_auto := b; q_dirty := q_dirty q |}
+  | KDirty b => {| q_done := q_done q; q_pend := q_pend q; q_poison := q_poison q; q_auto := q_auto q; q_dirty := b |}
+  | KNoop => q
   end.
 
 Fixpoint due_run (q : qst) (ops : list op) : list (list wr) :=
@@ -679,45 +658,51 @@ Proof.
 Qed.
 
 Definition Q (init : ep) (s : sst) (q : qst) : Prop :=
-  s_pend s = q_pend q /\ s_auto s = q_auto q /\ s_dirty s = q_dirty q /\
+  s_pend s = q_pend q /\ s_poison s = q_poison q /\ s_auto s = q_auto q /\ s_dirty s = q_dirty q /\
   ep_equiv (s_prev s) (fold_left s_apply (q_done q) init).
-
-Lemma flushed_due init s q : Q init s q ->
-  ep_equiv (flushed s) (fold_left s_apply (q_done q ++ q_pend q) init).
-Proof.
-  intros [H1 [_ [_ H4]]]. unfold flushed. rewrite fold_left_app, H1. apply wsim_refl, H4.
-Qed.
 
 Ltac solveQ X :=
   split; [|exact X];
-  split; [|split; [|split; [|exact X]]]; simpl in *; try congruence; auto.
+  split; [|split; [|split; [|split; [|exact X]]]]; simpl in *; try congruence; auto.
 
-Lemma spec_step_due init s q o now a s' : Q init s q -> spec_step s o now a = Some s' ->
-  Q init s' (q_step q o) /\ ep_equiv now (fold_left s_apply (q_done (q_step q o)) init).
+Lemma flush_step_due init s q extra bad now a ok s' : Q init s q ->
+  flush_step s extra bad now a ok = Some s' ->
+  Q init s' (q_flush q extra bad) /\ ep_equiv now (fold_left s_apply (q_done (q_flush q extra bad)) init).
 Proof.
-  intros HQ. pose proof (flushed_due HQ) as HF. destruct HQ as [H1 [H2 [H3 H4]]].
-  unfold spec_step, q_step. rewrite <- H2, <- H3, <- H1.
-  destruct (classify o) as [w| | | |b|b| | ].
-  - destruct (s_auto s) eqn:Ea.
-    + destruct (ep_ok now (s_apply (flushed s) w) && is_none a) eqn:E; [|discriminate].
-      intros [= <-]. apply andb_true_iff in E. destruct E as [E _]. apply ep_ok_equiv in E.
-      assert (X : ep_equiv now (fold_left s_apply (q_done q ++ s_pend s ++ [w]) init)).
-      { eapply ep_equiv_trans; [exact E|]. rewrite app_assoc, fold_left_app. simpl.
-        apply s_apply_equiv. rewrite <- H1 in HF. exact HF. }
-      solveQ X.
-    + destruct (ep_ok now (s_prev s) && is_none a) eqn:E; [|discriminate].
-      intros [= <-]. apply andb_true_iff in E. destruct E as [E _]. apply ep_ok_equiv in E.
-      assert (X : ep_equiv now (fold_left s_apply (q_done q) init)) by (eapply ep_equiv_trans; eassumption).
-      solveQ X.
+  intros [H1 [H2 [H3 [H4 H5]]]]. unfold flush_step, q_flush. rewrite <- H2, <- H1.
+  destruct (s_poison s || bad).
   - destruct (ep_ok now (s_prev s) && is_raised a) eqn:E; [|discriminate].
     intros [= <-]. apply andb_true_iff in E. destruct E as [E _]. apply ep_ok_equiv in E.
     assert (X : ep_equiv now (fold_left s_apply (q_done q) init)) by (eapply ep_equiv_trans; eassumption).
     solveQ X.
-  - destruct (ep_ok now (flushed s) && is_none a) eqn:E; [|discriminate].
+  - destruct (ep_ok now (fold_left s_apply (s_pend s ++ extra) (s_prev s)) && ok a) eqn:E; [|discriminate].
     intros [= <-]. apply andb_true_iff in E. destruct E as [E _]. apply ep_ok_equiv in E.
-    assert (X : ep_equiv now (fold_left s_apply (q_done q ++ s_pend s) init)).
-    { eapply ep_equiv_trans; [exact E|]. rewrite <- H1 in HF. exact HF. }
+    assert (X : ep_equiv now (fold_left s_apply (q_done q ++ s_pend s ++ extra) init)).
+    { eapply ep_equiv_trans; [exact E|]. rewrite (fold_left_app _ (q_done q)). apply wsim_refl, H5. }
     solveQ X.
+Qed.
+
+Lemma write_step_due init s q extra bad now a s' : Q init s q ->
+  write_step s extra bad now a = Some s' ->
+  Q init s' (q_write q extra bad) /\ ep_equiv now (fold_left s_apply (q_done (q_write q extra bad)) init).
+Proof.
+  intros HQ. pose proof HQ as [H1 [H2 [H3 [H4 H5]]]]. unfold write_step, q_write. rewrite <- H3.
+  destruct (s_auto s) eqn:Ea; [apply flush_step_due; exact HQ|].
+  destruct (ep_ok now (s_prev s) && is_none a) eqn:E; [|discriminate].
+  intros [= <-]. apply andb_true_iff in E. destruct E as [E _]. apply ep_ok_equiv in E.
+  assert (X : ep_equiv now (fold_left s_apply (q_done q) init)) by (eapply ep_equiv_trans; eassumption).
+  solveQ X.
+Qed.
+
+Lemma spec_step_due init s q o now a s' : Q init s q -> spec_step s o now a = Some s' ->
+  Q init s' (q_step q o) /\ ep_equiv now (fold_left s_apply (q_done (q_step q o)) init).
+Proof.
+  intros HQ. pose proof HQ as [H1 [H2 [H3 [H4 H5]]]].
+  unfold spec_step, q_step.
+  destruct (classify o) as [w| | | |b|b| | ].
+  - apply write_step_due; exact HQ.
+  - apply write_step_due; exact HQ.
+  - apply flush_step_due; exact HQ.
   - destruct (ep_ok now (s_prev s) && is_none a) eqn:E; [|discriminate].
     intros [= <-]. apply andb_true_iff in E. destruct E as [E _]. apply ep_ok_equiv in E.
     assert (X : ep_equiv now (fold_left s_apply (q_done q) init)) by (eapply ep_equiv_trans; eassumption).
@@ -730,12 +715,8 @@ Proof.
     intros [= <-]. apply andb_true_iff in E. destruct E as [E _]. apply ep_ok_equiv in E.
     assert (X : ep_equiv now (fold_left s_apply (q_done q) init)) by (eapply ep_equiv_trans; eassumption).
     solveQ X.
-  - destruct (negb (s_auto s) && negb (s_dirty s)) eqn:Ea.
-    + destruct (ep_ok now (flushed s) && read_ok o now a) eqn:E; [|discriminate].
-      intros [= <-]. apply andb_true_iff in E. destruct E as [E _]. apply ep_ok_equiv in E.
-      assert (X : ep_equiv now (fold_left s_apply (q_done q ++ s_pend s) init)).
-      { eapply ep_equiv_trans; [exact E|]. rewrite <- H1 in HF. exact HF. }
-      solveQ X.
+  - rewrite <- H3, <- H4. destruct (negb (s_auto s) && negb (s_dirty s)) eqn:Ea.
+    + apply flush_step_due; exact HQ.
     + destruct (ep_ok now (s_prev s) && read_ok o now a) eqn:E; [|discriminate].
       intros [= <-]. apply andb_true_iff in E. destruct E as [E _]. apply ep_ok_equiv in E.
       assert (X : ep_equiv now (fold_left s_apply (q_done q) init)) by (eapply ep_equiv_trans; eassumption).
@@ -759,23 +740,14 @@ Proof.
 Qed.
 
 Definition q0 (c : case) : qst :=
-  {| q_done := []; q_pend := []; q_auto := c_auto c; q_dirty := c_dirty c |}.
+  {| q_done := []; q_pend := []; q_poison := false; q_auto := c_auto c; q_dirty := c_dirty c |}.
 
-Theorem queue_model c : wf c -> kf c = 0 ->
+Theorem queue_model c : wf c ->
   Forall2 (fun ob dn => ep_equiv (fst ob) (fold_left s_apply dn (init_ep c)))
           (model_obs c) (due_run (q0 c) (c_ops c)).
 Proof.
-  intros Hw Hk. eapply spec_run_due; [|apply (spec_ok_model Hw Hk)].
+  intros Hw. eapply spec_run_due; [|apply (spec_ok_model Hw)].
   repeat split; simpl; apply seteq_refl.
-Qed.
-
-(* reading of the checker, reads: an accepted answer is exactly the content of the observed dataset *)
-Lemma spec_step_read s o now a s' : classify o = KRead -> spec_step s o now a = Some s' ->
-  read_ok o now a = true.
-Proof.
-  unfold spec_step. intros ->. destruct (negb (s_auto s) && negb (s_dirty s)).
-  - destruct (ep_ok now (flushed s)); simpl; [|discriminate]. destruct (read_ok o now a); [reflexivity|discriminate].
-  - destruct (ep_ok now (s_prev s)); simpl; [|discriminate]. destruct (read_ok o now a); [reflexivity|discriminate].
 Qed.
 
 Lemma read_ok_triples p c now l : read_ok (OTriples p c) now (ATriples l) = true <->
@@ -787,29 +759,19 @@ Proof.
 Qed.
 
 (* ------------------------------------------------------------------ *)
-(* the findings                                                         *)
+(* the code as it was before the repairs (findings F13a, F13b)          *)
 
-Definition wit_a : case :=
-  {| c_alias := false; c_auto := true; c_dirty := false; c_init := []; c_names := [];
-     c_ops := [OAddN [((1, 3, 10), 0)]; OTriples all_pat (Some 0)] |}.
-Definition wit_b : case :=
-  {| c_alias := true; c_auto := true; c_dirty := false;
-     c_init := [((1, 3, 5), 1); ((1, 3, 10), 2)]; c_names := [1; 2];
-     c_ops := [OContexts (Some (1, 3, 5))] |}.
-Definition wit_c : case :=
-  {| c_alias := true; c_auto := true; c_dirty := false; c_init := []; c_names := [];
-     c_ops := [OBadUpdate; OAdd (1, 3, 10) (Some 1)] |}.
-Definition wit_d : case :=
-  {| c_alias := true; c_auto := true; c_dirty := false;
-     c_init := [((1, 3, 28), 1); ((1, 3, 27), 1)]; c_names := [1];
-     c_ops := [OUpdate (UoDeleteWhereB (None, None, Some 27)) (Some 1)] |}.
+(* F13a: queryGraph = the default graph's IRI was taken for a named graph; on an
+   endpoint that does not alias that IRI the request designated graph 9, not 0 *)
+Lemma hist_default_iri_refuted :
+  resolve false (qg_ref_hist (Some 0)) <> cid_of (Some 0) /\ resolve false (qg_ref (Some 0)) = cid_of (Some 0).
+Proof. split; [discriminate|reflexivity]. Qed.
 
-Lemma wf_dec c : nodupb quad_eqb (c_init c) && nodupb N.eqb (c_names c) = true -> wf c.
+(* F13b: contexts(triple) with a falsy bound term matched other triples too *)
+Lemma hist_contexts_truthiness_refuted :
+  exists t s, NoDup s /\ ctx_rows (truthy_pat_hist t) s <> ctx_rows (pat_of t) s.
 Proof.
-  rewrite andb_true_iff. intros [H1 H2]. split;
-    [apply (nodupb_spec _ quad_eqb_spec), H1|apply (nodupb_spec _ N.eqb_spec), H2].
+  exists (1, 3, 5), [((1, 3, 5), 1); ((1, 3, 10), 2)]. split.
+  - repeat constructor; simpl; intuition discriminate.
+  - vm_compute. discriminate.
 Qed.
-
-Lemma refuted_by c : nodupb quad_eqb (c_init c) && nodupb N.eqb (c_names c) = true ->
-  spec_ok c (model_obs c) = false -> exists c, wf c /\ spec_ok c (model_obs c) = false.
-Proof. intros H1 H2. exists c. split; [apply wf_dec, H1|exact H2]. Qed.
